@@ -22,13 +22,25 @@ def nm_pairs(anyorder=False):
     return _NM_PAIRS[anyorder]
 
 
+_MAGIC = sorted({9, 10, 15, 16, 59, 60, 63, 99, 100, 127, 128, 255, 256, 359, 360, 999, 1000, 1023, 1024, 3599, 3600, 4095, 4096, 9999, 10000, 32767, 32768, 65535, 86399, 86400, 86401, 99999, 100000, 604799, 604800, 999999, 1000000, 86399999, 86400000, 86400500, 86400999, 86401000, 604799999, 604800000, 604800999, 999999999, 1000000000})
+
+
 def draw_raw(draw, width, hist=None, offset=0):
     """raw field value biased to 0 / all ones / sign bit only; with a history of the values drawn earlier for the same
     message, also to a value that stands in a relation to them (equal to an earlier field, one more or less than the
     previous one, their sum) or to the position of the field itself (its bit or byte offset, its width)"""
     if width == 0:
         return 0
-    k = draw(st.integers(0, 11 if hist else 9))
+    k = draw(st.integers(0, 12 if hist else 10))
+    if k == 10 + (2 if hist else 0):
+        # round decimal numbers and calendar boundaries that fill this width: the values placeholders, "not available"
+        # conventions and time conversions are made of (999, -999, 86 400 000 ms in a day and its leap second,
+        # 604 800 000 ms in a week ...), as a positive number and as its two's complement
+        fit = [v for v in _MAGIC if width - 7 <= v.bit_length() <= width - (1 if width > 1 else 0)] or [v for v in _MAGIC if v.bit_length() <= width][-6:]
+        if fit:
+            v = draw(st.sampled_from(fit))
+            return v if draw(st.booleans()) else (-v) & ((1 << width) - 1)
+        return 0
     if k >= 10:
         m = (1 << width) - 1
         j = draw(st.integers(0, 7))
